@@ -116,6 +116,15 @@ func (o *C19Oracle) AfterAction(s *Sim, a *Action, pre, post *chain.Snapshot, re
 		if !listed {
 			s.FailT("fault-shard-not-in-order", "", trig, "fault %s: shard %d is not listed by order %d", id, f.ShardId, f.OrderId)
 		}
+		paying := sh.OrderId == f.OrderId
+		for _, ri := range sh.RenewInfos {
+			if ri.OrderId == f.OrderId {
+				paying = true
+			}
+		}
+		if !paying {
+			s.FailT("fault-names-order-that-does-not-pay-for-the-shard", "", trig, "fault %s: shard %d is paid by order %d (queued renewals %d) but the report names order %d", id, f.ShardId, sh.OrderId, len(sh.RenewInfos), f.OrderId)
+		}
 		if ord.DataId != f.DataId {
 			s.FailT("fault-wrong-data-model", "", trig, "fault %s names data model %s but order %d belongs to %s", id, tail(f.DataId), f.OrderId, tail(ord.DataId))
 		}
@@ -240,11 +249,39 @@ func c19Property(t *rapid.T) {
 			if !s.Do(st).OK {
 				continue
 			}
+			var waiting []ordertypes.Shard
 			for _, sh := range sortedShards(s.Last) {
-				if sh.Status == ordertypes.ShardWaiting && rapid.IntRange(0, 5).Draw(t, "complete") > 0 {
+				if sh.Status == ordertypes.ShardWaiting {
+					waiting = append(waiting, sh)
+				}
+			}
+			if rapid.Bool().Draw(t, "reverseOrder") {
+				for l, r := 0, len(waiting)-1; l < r; l, r = l+1, r-1 {
+					waiting[l], waiting[r] = waiting[r], waiting[l]
+				}
+			}
+			for _, sh := range waiting {
+				if rapid.IntRange(0, 5).Draw(t, "complete") > 0 {
 					c := NewAction("complete", s.acctOf(sh.Sp))
 					c.Order, c.Cid, c.Size = sh.OrderId, sh.Cid, sh.Size_
 					s.Do(c)
+					if rapid.Bool().Draw(t, "blockBetween") {
+						adv := NewAction("advance", 0)
+						adv.Blocks = int64(rapid.IntRange(1, 4).Draw(t, "gap"))
+						s.Do(adv)
+					}
+				}
+			}
+		}
+		// some models are renewed: their shards live on under the renewal order after the first term
+		if rapid.Bool().Draw(t, "renewSome") {
+			for i := 1; i <= nModels; i++ {
+				if m, ok := s.Last.Metas[DataIdN(i)]; ok && m.Status == 4 && rapid.Bool().Draw(t, "renewThis") {
+					rn := NewAction("renew", 2)
+					rn.Owner, rn.Data, rn.Duration, rn.Timeout = 8, []string{DataIdN(i)}, uint64(rapid.SampledFrom([]int{3600, 4000}).Draw(t, "renewDur")), 10
+					if s.Do(rn).OK {
+						s.Label("c19-model-renewed")
+					}
 				}
 			}
 		}
@@ -253,7 +290,7 @@ func c19Property(t *rapid.T) {
 			switch rapid.IntRange(0, 9).Draw(t, "step") {
 			case 0:
 				adv := NewAction("advance", 0)
-				adv.Blocks = int64(rapid.SampledFrom([]int{1, 5, 598, 600, 1200, 3000}).Draw(t, "blocks"))
+				adv.Blocks = int64(rapid.SampledFrom([]int{1, 5, 598, 600, 1200, 3000, 3610}).Draw(t, "blocks"))
 				s.Do(adv)
 			default:
 				s.Do(genFaultMsg(t, s, o))
@@ -322,6 +359,16 @@ func genFaultMsg(t *rapid.T, s *Sim, o *C19Oracle) *Action {
 			e.ShardId, e.OrderId = sh.Id, sh.OrderId
 			if ord, ok := sn.Orders[sh.OrderId]; ok {
 				e.DataId = ord.DataId
+			}
+			if rapid.IntRange(0, 3).Draw(t, "otherListingOrder") == 0 {
+				// any other order that (still) lists the shard, e.g. the order of a term that has ended
+				for _, oo := range sortedOrders(sn) {
+					for _, sid := range oo.Shards {
+						if sid == sh.Id && oo.Id != sh.OrderId {
+							e.OrderId, e.DataId = oo.Id, oo.DataId
+						}
+					}
+				}
 			}
 			if rapid.IntRange(0, 2).Draw(t, "accuseHolder") > 0 {
 				e.Provider = s.acctOf(sh.Sp)
